@@ -313,14 +313,20 @@ EvalChain(chain, i, r, st) ==
        LET keeps == c.f = "safe" \/ (~st.symbolic /\ ((c.f = "default" /\ Truthy(r.v)) \/ (c.f = "join" /\ r.v.k # "list"))) IN
        EvalChain(chain, i + 1, R(nv, st1, IF keeps THEN r.safe ELSE c.f \in SafeOutFilters), st1)
 
-\* the chain of the `filter` tag: as EvalChain, but a parameter that is text (not a literal of the template, not marked safe) is
+\* text inside a parameter of the filter tag, escaped: the value itself, the items of a list, the values of a map
+RECURSIVE EscParam(_)
+EscParam(v) == CASE v.k \in {"str", "stringer"} -> S(EscStr(StrOf(v)))
+                 [] v.k = "list" -> L([i \in 1..Len(v.l) |-> EscParam(v.l[i])])
+                 [] v.k = "map" -> M([i \in 1..Len(v.l) |-> P(v.l[i].l[1], EscParam(v.l[i].l[2]))])
+                 [] OTHER -> v
+\* the chain of the `filter` tag: as EvalChain, but text in a parameter (not a literal of the template, not marked safe; also inside a list or map) is
 \* escaped while autoescape is on - the tag's result is written without further escaping
 EvalTagChain(chain, i, r, st) ==
   IF i > Len(chain) \/ st.err # "" THEN R(r.v, st, r.safe)
   ELSE LET c == chain[i] IN
        LET ra0 == IF c.arg.t = "none" THEN R(Nil, st, FALSE) ELSE Eval(c.arg, st) IN
        LET isLit == c.arg.t = "lit" IN
-       LET pv == IF c.arg.t # "none" /\ st.auto /\ ~isLit /\ ~ra0.safe /\ ra0.v.k \in {"str", "stringer"} THEN S(EscStr(StrOf(ra0.v))) ELSE ra0.v IN
+       LET pv == IF c.arg.t # "none" /\ st.auto /\ ~isLit /\ ~ra0.safe THEN EscParam(ra0.v) ELSE ra0.v IN
        LET st1 == Ev(ra0.st, <<"Filter", c.f>>) IN
        LET nv == IF c.f \in DefinedFilters /\ (~st.symbolic \/ c.f = "safe") THEN ApplyDefined(c.f, r.v, pv) ELSE Ap(c.f, r.v, pv) IN
        EvalTagChain(chain, i + 1, R(nv, st1, IF c.f = "safe" THEN r.safe ELSE c.f \in SafeOutFilters), st1)
